@@ -2072,6 +2072,14 @@ int EGLPNUM_TYPENAME_ILLlib_chgsense (
 			 * rhs <= a.x <= rhs + range, i.e. a.x - logical = rhs */
 			EGLPNUM_TYPENAME_EGlpNumOne(A->matval[k]);
 			EGLPNUM_TYPENAME_EGlpNumSign(A->matval[k]);
+			/* a ranged row needs the rangeval array (the writers insist on it) */
+			if (qslp->rangeval == 0 && qslp->rowsize > 0)
+			{
+				int r;
+				qslp->rangeval = EGLPNUM_TYPENAME_EGlpNumAllocArray (qslp->rowsize);
+				for (r = 0; r < qslp->nrows; r++)
+					EGLPNUM_TYPENAME_EGlpNumZero (qslp->rangeval[r]);
+			}
 			if (qslp->rangeval)
 				EGLPNUM_TYPENAME_EGlpNumZero(qslp->rangeval[rowlist[i]]);
 			break;
